@@ -1,7 +1,11 @@
 /-
-C02 — streaming round trip under any call history and buffer segmentation (decoder side of the specification LTS).
+C02 — streaming round trip under any call history and buffer segmentation.
+(1) the specification LTS of streaming decoding (Model/Stream.lean) and what every legal history satisfies;
+(2) the deterministic model of ZSTD_decompressStream / ZSTD_decompressContinue (Model/DStream.lean, tied call by call to the real code:
+    consumed, produced and the exact return value of every call of every history) refines that specification.
 -/
-import ZstdVerif.Model.Stream
+import ZstdVerif.Lemmas.StreamSpec
+import ZstdVerif.Lemmas.DStreamRT
 namespace ZstdVerif.Props.C02
 open ZstdVerif.Stream
 
@@ -9,33 +13,56 @@ open ZstdVerif.Stream
 theorem output_is_content_prefix (sp : DSpec) (s : DState) (cs : List DCall)
     (hinv : s.output = sp.content.take s.produced ∧ s.produced ≤ sp.content.length ∧ s.output.length = s.produced)
     (h : DLegalRun sp s cs) :
-    (s.run cs).output = sp.content.take (s.run cs).produced ∧ (s.run cs).produced ≤ sp.content.length := by
-  induction cs generalizing s with
-  | nil => exact ⟨hinv.1, hinv.2.1⟩
-  | cons c cs ih =>
-    obtain ⟨hl, hrest⟩ := h
-    obtain ⟨_, _, hp, hle, _⟩ := hl
-    have hstep : (s.step c).output = sp.content.take (s.step c).produced ∧ (s.step c).produced ≤ sp.content.length ∧
-        (s.step c).output.length = (s.step c).produced := by
-      unfold DState.step
-      simp only
-      refine ⟨?_, hle, ?_⟩
-      · have ht := List.take_add (l := sp.content) (i := s.produced) (j := c.produced.length)
-        rw [ht, ← hp, hinv.1]
-      · rw [List.length_append, hinv.2.2]
-    exact ih (s.step c) hstep hrest
+    (s.run cs).output = sp.content.take (s.run cs).produced ∧ (s.run cs).produced ≤ sp.content.length :=
+  StreamSpec.output_is_content_prefix sp s cs hinv h
 
 /-- **any segmentation = one-shot**: a legal history that has produced as many bytes as the content holds has produced
 exactly the content single-call decoding yields — whatever the chunk sizes were -/
 theorem any_segmentation_eq_oneShot (sp : DSpec) (cs : List DCall) (h : DLegalRun sp {} cs)
-    (hdone : (({} : DState).run cs).produced = sp.content.length) : (({} : DState).run cs).output = sp.content := by
-  have := output_is_content_prefix sp {} cs ⟨by simp, by simp, by simp⟩ h
-  rw [this.1, hdone, List.take_length]
+    (hdone : (({} : DState).run cs).produced = sp.content.length) : (({} : DState).run cs).output = sp.content :=
+  StreamSpec.any_segmentation_eq_oneShot sp cs h hdone
 
 /-- **completion is reported exactly at frame ends**: in a legal history, a call returns 0 iff right after it the
 consumed / produced totals sit on a frame boundary -/
 theorem zero_iff_frameEnd (sp : DSpec) (s : DState) (c : DCall) (h : DLegal sp s c) :
-    c.retZero = true ↔ (((s.step c).consumed, (s.step c).produced) ∈ sp.frameEnds ∧ (0 < c.consumed ∨ 0 < c.produced.length)) := h.2.2.2.2
+    c.retZero = true ↔ (((s.step c).consumed, (s.step c).produced) ∈ sp.frameEnds ∧ (0 < c.consumed ∨ 0 < c.produced.length)) :=
+  StreamSpec.zero_iff_frameEnd sp s c h
+
+/-! ### the model of the real decoder refines the specification -/
+
+open DStream in
+/-- **dstream_step_legal**: for every well-formed parsed stream `all` (frames, blocks, skippable frames), every reachable state of the model of
+ZSTD_decompressStream and every call `(inAvail, outCap)` within the stream, the call the model makes is a LEGAL step of the specification:
+within its buffers, emitting exactly the next bytes of the one-shot content, returning 0 exactly when this call completes a frame;
+and unless it reports an error the invariant is re-established (so the statement holds along every history) -/
+theorem dstream_step_legal (all : List FrameD) (content : List Nat) (hok : AllOk all) (hlen : content.length = regenAll all)
+    (s : State) (hinv : Inv all s) (inAvail outCap : Nat) (hlim : s.totalIn + inAvail ≤ sizeAll all)
+    (ds : DState) (hds : ds.consumed = s.totalIn ∧ ds.produced = s.totalOut) :
+    DLegal (specOf all content) ds ((step s inAvail outCap).2.toDCall content inAvail outCap) ∧
+    ((∀ e, (step s inAvail outCap).2.ret ≠ .err e) →
+      Inv all (step s inAvail outCap).1 ∧
+      (ds.step ((step s inAvail outCap).2.toDCall content inAvail outCap)).consumed = (step s inAvail outCap).1.totalIn ∧
+      (ds.step ((step s inAvail outCap).2.toDCall content inAvail outCap)).produced = (step s inAvail outCap).1.totalOut) :=
+  DStream.step_legal all content hok hlen s hinv inAvail outCap hlim ds hds
+
+open DStream in
+/-- **dstream_any_segmentation_eq_oneShot**: under ANY segmentation of input and output (one `(input size, output room)` pair per call, sizes down
+to 0 or 1 byte), a history of the model that has produced as many bytes as the content holds has produced exactly the one-shot content -/
+theorem dstream_any_segmentation_eq_oneShot (all : List FrameD) (content : List Nat) (hok : AllOk all)
+    (hlen : content.length = regenAll all) (io : List (Nat × Nat)) (hf : Feasible all (State.start all) io)
+    (hdone : (({} : DState).run (calls content (State.start all) io)).produced = content.length) :
+    (({} : DState).run (calls content (State.start all) io)).output = content :=
+  DStream.model_any_segmentation_eq_oneShot all content hok hlen io hf hdone
+
+open DStream in
+/-- **dstream_zero_iff_frame_end**: the model's return value is 0 exactly when the totals after the call sit on a frame end and the call made
+progress (so 0 is never returned in the middle of a frame, and a truncated stream never ends with 0) -/
+theorem dstream_zero_iff_frame_end (all : List FrameD) (hok : AllOk all) (s : State) (hinv : Inv all s) (inAvail outCap : Nat)
+    (hlim : s.totalIn + inAvail ≤ sizeAll all) :
+    (step s inAvail outCap).2.ret = .hint 0 ↔
+      ((s.totalIn + (step s inAvail outCap).2.consumed, s.totalOut + (step s inAvail outCap).2.produced) ∈ endsFrom 0 0 all ∧
+       (0 < (step s inAvail outCap).2.consumed ∨ 0 < (step s inAvail outCap).2.produced)) :=
+  DStream.zero_iff_frame_end all hok s hinv inAvail outCap hlim
 
 example : DLegalRun ⟨[1, 2, 3], [(9, 3)]⟩ {} [⟨4, 2, 4, [1, 2], false⟩, ⟨5, 8, 5, [3], true⟩] := by
   simp [DLegalRun, DLegal, DState.step]
